@@ -211,6 +211,8 @@ func (m *Metrics) printMetrics() {
 
 // Restores all metrics to original values
 func (m *Metrics) zeroMetrics() {
+	m.lock.Lock()
+	defer m.lock.Unlock()
 	m.proxyIdleCount = 0
 	m.clientDeniedCount = 0
 	m.clientRestrictedDeniedCount = 0
